@@ -577,10 +577,129 @@ func RAtomRep(c *core.Ctx) {
 			unconditional := isConst && tv.Value != nil && tv.Value.String() == "true"
 			c.Check(!unconditional, fmt.Sprintf("reduceRep / folding an atomic inner loop (#%d) depends on the bounds", n), as.Pos(),
 				"%s = true for %s regardless of the iteration counts: (?>a{1,2}){2} becomes a{2,4} and matches \"aa\", (?>b+){2,} becomes b{2,} and matches \"bb\"; with two or more mandatory iterations of an inner loop that must consume something the repeated atomic loop fails there", types.ExprString(as.Lhs[0]), kind)
+			// with an outer minimum of 0 the group loop can be backtracked into and left with ZERO
+			// iterations; one merged atomic loop cannot give anything back.  Evaluate the condition
+			// three-valued under "outer minimum == 0": it must come out false.
+			minVar := outerMinVar(info, fd)
+			if minVar == nil {
+				c.Unknown(fmt.Sprintf("reduceRep / folding an atomic inner loop (#%d) is refused when the outer loop may run zero times", n), as.Pos(), "cannot identify the local that holds the outer loop's minimum (assigned from the receiver's M)")
+			} else {
+				v := evalUnderInt(info, as.Rhs[0], minVar, 0)
+				c.Check(v == tFalse, fmt.Sprintf("reduceRep / folding an atomic inner loop (#%d) is refused when the outer loop may run zero times", n), as.Pos(),
+					"with the outer minimum 0 the condition `%s` can hold: (?>b+)*b must match \"b\" by running the group zero times, (?>b*)b cannot", types.ExprString(as.Rhs[0]))
+			}
 		}
 		return true
 	})
 	if n == 0 {
 		c.OK("reduceRep / atomic inner loops are not folded", fd.Pos(), "no case arm accepts an atomic single-character loop kind")
 	}
+}
+
+// outerMinVar: the local of fd that is assigned (once) from <receiver>.M.
+func outerMinVar(info *types.Info, fd *ast.FuncDecl) types.Object {
+	if fd.Recv == nil || len(fd.Recv.List) != 1 || len(fd.Recv.List[0].Names) != 1 {
+		return nil
+	}
+	recv := info.ObjectOf(fd.Recv.List[0].Names[0])
+	var out types.Object
+	ast.Inspect(fd.Body, func(x ast.Node) bool {
+		as, ok := x.(*ast.AssignStmt)
+		if !ok || len(as.Lhs) != len(as.Rhs) {
+			return true
+		}
+		for i, l := range as.Lhs {
+			id, ok := l.(*ast.Ident)
+			if !ok {
+				continue
+			}
+			sel, ok := ast.Unparen(as.Rhs[i]).(*ast.SelectorExpr)
+			if !ok || sel.Sel.Name != "M" {
+				continue
+			}
+			if rid, ok := ast.Unparen(sel.X).(*ast.Ident); ok && info.ObjectOf(rid) == recv && out == nil {
+				out = info.ObjectOf(id)
+			}
+		}
+		return true
+	})
+	return out
+}
+
+// evalUnderInt evaluates a boolean expression three-valued, knowing only that variable v has the value k.
+func evalUnderInt(info *types.Info, e ast.Expr, v types.Object, k int64) tri {
+	e = ast.Unparen(e)
+	if tv, ok := info.Types[e]; ok && tv.Value != nil {
+		switch tv.Value.String() {
+		case "true":
+			return tTrue
+		case "false":
+			return tFalse
+		}
+	}
+	switch x := e.(type) {
+	case *ast.UnaryExpr:
+		if x.Op == token.NOT {
+			switch evalUnderInt(info, x.X, v, k) {
+			case tTrue:
+				return tFalse
+			case tFalse:
+				return tTrue
+			}
+			return tUnknown
+		}
+	case *ast.BinaryExpr:
+		switch x.Op {
+		case token.LAND:
+			a, b := evalUnderInt(info, x.X, v, k), evalUnderInt(info, x.Y, v, k)
+			if a == tFalse || b == tFalse {
+				return tFalse
+			}
+			if a == tTrue && b == tTrue {
+				return tTrue
+			}
+			return tUnknown
+		case token.LOR:
+			a, b := evalUnderInt(info, x.X, v, k), evalUnderInt(info, x.Y, v, k)
+			if a == tTrue || b == tTrue {
+				return tTrue
+			}
+			if a == tFalse && b == tFalse {
+				return tFalse
+			}
+			return tUnknown
+		case token.EQL, token.NEQ, token.LSS, token.LEQ, token.GTR, token.GEQ:
+			val := func(e ast.Expr) (int64, bool) {
+				if id, ok := ast.Unparen(e).(*ast.Ident); ok && info.ObjectOf(id) == v {
+					return k, true
+				}
+				return core.ConstInt(info, e)
+			}
+			a, ok1 := val(x.X)
+			b, ok2 := val(x.Y)
+			if !ok1 || !ok2 {
+				return tUnknown
+			}
+			var r bool
+			switch x.Op {
+			case token.EQL:
+				r = a == b
+			case token.NEQ:
+				r = a != b
+			case token.LSS:
+				r = a < b
+			case token.LEQ:
+				r = a <= b
+			case token.GTR:
+				r = a > b
+			case token.GEQ:
+				r = a >= b
+			}
+			if r {
+				return tTrue
+			}
+			return tFalse
+		}
+	}
+	return tUnknown
 }
